@@ -1,6 +1,11 @@
 package main
 
-import "github.com/virus-evolution/gofasta/pkg/verifhook"
+import (
+	"os"
+	"runtime"
+
+	"github.com/virus-evolution/gofasta/pkg/verifhook"
+)
 
 // withJitter runs f with the scheduling jitter armed (seeded), then disarms it
 func withJitter(seed uint64, maxUs uint64, f func()) {
@@ -13,6 +18,16 @@ func withJitter(seed uint64, maxUs uint64, f func()) {
 // workers of the pipeline under test finish far out of order (stragglers included) and the order-restoring stages
 // of the property's own entry point are exercised, not only those of the C12 streams
 func runExec(ex func(*RNG, *Case), r *RNG, c *Case) {
+	// one case in eleven runs on a single processor (GOMAXPROCS=1, in-process and for the binary): pools sized from the
+	// processor count, and anything that relies on workers finishing in some order, must still behave
+	if idSeed(c.ID)%11 == 0 {
+		prev := runtime.GOMAXPROCS(1)
+		os.Setenv("GOMAXPROCS", "1")
+		defer func() {
+			runtime.GOMAXPROCS(prev)
+			os.Unsetenv("GOMAXPROCS")
+		}()
+	}
 	if j := c.Get("jit"); j != "" && j != "0" {
 		withJitter(uint64(atoi(j)), 400, func() { ex(r, c) })
 		return
